@@ -34,6 +34,20 @@ pub fn run_path(sc: &Value) -> Value {
     std::fs::write(top.join("outer").join("secret"), b"outside the base").expect("secret");
     std::fs::write(top.join("secret"), b"outside the base").expect("secret");
     let bad = bad_path(&p);
+    if bad && p.first() != Some(&b'/') {
+        // make the traversal succeed if validation lets it through: every ordinary segment
+        // becomes a directory (a NUL ends the name, as it does for openat)
+        let mut cur = base.clone();
+        let upto = p.iter().position(|c| *c == 0).unwrap_or(p.len());
+        for seg in p[..upto].split(|c| *c == b'/') {
+            if seg == b".." {
+                cur = cur.parent().map(|x| x.to_path_buf()).unwrap_or(cur);
+            } else if !(seg.is_empty() || seg == b".") {
+                cur = cur.join(OsStr::from_bytes(seg));
+                let _ = std::fs::create_dir_all(&cur);
+            }
+        }
+    }
     if !bad {
         // materialise what the path names (best effort: "", ".", "a/" etc. cannot be files)
         let full = base.join(OsStr::from_bytes(&p));
@@ -60,7 +74,11 @@ pub fn run_path(sc: &Value) -> Value {
         Ok(got) => {
             if bad {
                 if got.is_ok() {
-                    violations.push(json!({"property": "C19", "what": format!("path {shown:?} (NUL / absolute / `..` segment) was not refused")}));
+                    violations.push(json!({"property": "C19", "what": format!("path {shown:?} (NUL / absolute / `..` segment) was not refused: FsDir::get opened {got:?}")}));
+                } else if p.first() == Some(&b'/') && got != Err(std::io::ErrorKind::InvalidInput) {
+                    // an absolute path cannot be materialised here; the only refusal that does not
+                    // depend on what happens to exist under / is the validation error
+                    violations.push(json!({"property": "C19", "what": format!("absolute path {shown:?} was handed to the file system ({got:?}) instead of being refused")}));
                 }
             } else {
                 // POSIX: an empty pathname names nothing (ENOENT), whereas `base.join("")` is the base itself
